@@ -193,4 +193,64 @@ theorem writePtr_frame {m m' : Mach} {k : Kind} {h i : Nat} {v : Val} (hw : writ
       subst h2
       rfl
 
+/-- `x = val` on an int-slot variable: the slot of the named frame is written at kind `k`, IP advances -/
+def specSetUnboxed (k : Kind) (m : Mach) (h idx : Nat) (c : Val) : StmtIR.Flow :=
+  match writePtr m k h idx c with
+  | some m' => .done { m' with ip := m'.ip + 1 }
+  | none => .stuck
+
+theorem varSet_unboxed_const (F : FloatOps) (k : Kind) (u : Upn) (hu : u ≠ .loop)
+    (ρ : StmtIR.Store) (m : Mach) (idx : Nat) (c : Val)
+    (hval : StmtIR.lookup ρ "val" = some (.val c)) (hidx : StmtIR.lookup ρ "index" = some (.nat idx))
+    (hlen : hopOf u m 0 < m.frames.length) :
+    StmtIR.execBody F (varSetBody k u true .const) (StmtIR.update ρ "env" (.envp 0)) m =
+      specSetUnboxed k m (hopOf u m 0) idx c := by
+  unfold specSetUnboxed
+  by_cases hk : k = .uint64
+  · subst hk
+    generalize hw : writePtr m .uint64 (hopOf u m 0) idx c = w
+    cases w <;> cases u <;> simp only [hopOf] at hlen hw ⊢ <;> (try exact absurd rfl hu) <;>
+      (have h0 : 0 < m.frames.length := by omega) <;>
+      (first | (have h1 : 1 < m.frames.length := by omega) | skip) <;>
+      simp [varSetBody, pre, slotLhs, intsIx, envE, envV, rhsE, C02Arms.tail,
+        StmtIR.execBody, StmtIR.execSt, StmtIR.execS, StmtIR.evalE, StmtIR.ctKey,
+        StmtIR.assignTo, hval, hidx, StmtIR.lookup, StmtIR.update, Res.bind,
+        evalSelSV, envHop, hlen, h0, *]
+  · generalize hw : writePtr m k (hopOf u m 0) idx c = w
+    cases w <;> cases u <;> simp only [hopOf] at hlen hw ⊢ <;> (try exact absurd rfl hu) <;>
+      (have h0 : 0 < m.frames.length := by omega) <;>
+      (first | (have h1 : 1 < m.frames.length := by omega) | skip) <;>
+      simp [varSetBody, pre, slotLhs, hk, intsIx, envE, envV, rhsE, C02Arms.tail,
+        StmtIR.execBody, StmtIR.execSt, StmtIR.execS, StmtIR.evalE, StmtIR.ctKey,
+        StmtIR.assignTo, hval, hidx, StmtIR.lookup, StmtIR.update, Res.bind,
+        evalSelSV, envHop, hlen, h0, *]
+
+theorem varSet_unboxed_expr (F : FloatOps) (k : Kind) (u : Upn) (hu : u ≠ .loop)
+    (ρ : StmtIR.Store) (m : Mach) (idx : Nat) (c : Val) (kf : Kind) (id : Nat)
+    (hval : StmtIR.lookup ρ "fun" = some (.clo kf id (.ok c))) (hidx : StmtIR.lookup ρ "index" = some (.nat idx))
+    (hlen : hopOf u m 0 < m.frames.length) :
+    StmtIR.execBody F (varSetBody k u true .expr) (StmtIR.update ρ "env" (.envp 0)) m =
+      specSetUnboxed k { m with log := m.log ++ [id] } (hopOf u m 0) idx c := by
+  unfold specSetUnboxed
+  by_cases hk : k = .uint64
+  · subst hk
+    generalize hw : writePtr { m with log := m.log ++ [id] } .uint64 (hopOf u m 0) idx c = w
+    cases w <;> cases u <;> simp only [hopOf] at hlen hw ⊢ <;> (try exact absurd rfl hu) <;>
+      (have h0 : 0 < m.frames.length := by omega) <;>
+      (first | (have h1 : 1 < m.frames.length := by omega) | skip) <;>
+      simp [varSetBody, pre, slotLhs, intsIx, envE, envV, rhsE, C02Arms.tail,
+        StmtIR.execBody, StmtIR.execSt, StmtIR.execS, StmtIR.evalE, StmtIR.ctKey,
+        StmtIR.assignTo, hval, hidx, StmtIR.lookup, StmtIR.update, Res.bind,
+        evalSelSV, envHop, hlen, h0, applyClosure, *]
+  · generalize hw : writePtr { m with log := m.log ++ [id] } k (hopOf u m 0) idx c = w
+    cases w <;> cases u <;> simp only [hopOf] at hlen hw ⊢ <;> (try exact absurd rfl hu) <;>
+      (have h0 : 0 < m.frames.length := by omega) <;>
+      (first | (have h1 : 1 < m.frames.length := by omega) | skip) <;>
+      simp [varSetBody, pre, slotLhs, hk, intsIx, envE, envV, rhsE, C02Arms.tail,
+        StmtIR.execBody, StmtIR.execSt, StmtIR.execS, StmtIR.evalE, StmtIR.ctKey,
+        StmtIR.assignTo, hval, hidx, StmtIR.lookup, StmtIR.update, Res.bind,
+        evalSelSV, envHop, hlen, h0, applyClosure, *]
+
+
+
 end C02Sound
